@@ -4,7 +4,7 @@ from shell import c07
 ID = "C07"
 LEVEL = "other"
 FUNCTIONS = ["TrackRecord._checkpoint", "TrackRecord.__getitem__", "Broker.context", "Broker.rebalance", "RewardSimpleReturn.calculate", "RewardPnL.calculate",
-             "RewardLogReturn.calculate", "LogReturn.calculate", "TradingEnv.step"]
+             "RewardLogReturn.calculate", "LogReturn.calculate", "TradingEnv.step", "TradingEnv.reset"]
 SHELL = [c07.records]
 LEVEL_TEXT = ("Deductive kernel: Broker.rebalance's postconditions (recorded pre/post NLV are equity(B) before/after the trades; the "
               "recorded trades' ledger reproduces post - pre; exactly one checkpoint per executed decision), the four reward formulas, "
@@ -13,6 +13,8 @@ LEVEL_TEXT = ("Deductive kernel: Broker.rebalance's postconditions (recorded pre
 EXPLANATION = LEVEL_TEXT
 NOT_DEDUCTIVE = ["the pandas accessors of TrackRecord: bounded shell only (TrackRecord._checkpoint/__getitem__ are verified against concrete contracts; their abstraction at call sites is argued)",
                  "strictly increasing record stamps on bar-shaped data (lemma stamps_increasing): argued from the clock contract; observed by the shell"]
-EXTRA_ASSUMPTIONS = ["ASSUMED contracts: IState.__call__, Transmitter._next; input assumption of TradingEnv._process_*_events: delivered quotes stay within the property's quantifier (0 < bid <= ask, cash 1/1, rate quoted)"]
+EXTRA_ASSUMPTIONS = [
+    "TradingEnv.reset is verified to establish the environment invariant that TradingEnv.step assumes at entry and re-establishes at exit, modulo ASSUMED summaries (IState.reset, Transmitter._reset, Transmitter._next, IState.__call__) and TRUSTED small models (sorted() as a permutation ordered by IEvent.__lt__ - itself executed -, Cash() as one fixed cash key with the precondition that the space's base currency is that key, defaultdict(LimitOrderBook) as an empty book table whose rows read NaN : NaN, alive, AbstractContract.verify/Rate.verify, np.inf as an unconstrained constant); the configuration clauses (fees >= 0, contract specs in the property's regime, reward parameters, 0 within the box bounds) are preconditions of reset",
+    "ASSUMED contracts: IState.__call__, Transmitter._next; input assumption of TradingEnv._process_*_events: delivered quotes stay within the property's quantifier (0 < bid <= ask, cash 1/1, rate quoted)"]
 
 USES_SUM_LEMMAS = True
